@@ -98,6 +98,22 @@ def gen_scenario(seed, family="mixed"):
                 u.append(["cancel", rnd.randrange(k + 1)])
         return {"kind": "plain", "max_workers": mw, "timeout": rnd.choice([None, None, 5]), "tasks": tasks, "family": family,
                 "users": users, "sched": {"p_timeout": 0.1, "p_crash": 0.0, "max_crashes": 0}}
+    if family == "cancelshut":
+        # the work items still pending when the executor is flagged as shutting down have (mostly) been cancelled:
+        # the manager must not go back to waiting with a table it has just emptied itself
+        mw = rnd.choice([1, 1, 2])
+        n1, n2 = rnd.randint(0, 2), rnd.randint(1, 3)
+        tasks = [{"body": rnd.choice(["ok", "ok", "raise"])} for _ in range(n1 + n2)]
+        u0 = [["create"]] + [["submit", k] for k in range(n1)] + [["idle"]] * rnd.choice([0, 10, 25])
+        for k in range(n1, n1 + n2):
+            u0.append(["submit", k])
+            if rnd.random() < 0.8:
+                u0.append(["cancel", k])
+        r = rnd.random()
+        u0.append(["shutdown", True, False] if r < 0.6 else ["shutdown", False, False] if r < 0.75 else
+                  ["drop"] if r < 0.87 else ["pyexit"])
+        return {"kind": "plain", "max_workers": mw, "timeout": rnd.choice([None, None, None, 5]), "tasks": tasks, "family": family,
+                "users": [u0], "sched": {"p_timeout": 0.1, "p_crash": 0.0, "max_crashes": 0}}
     if family == "saturateleak":
         # a worker leaves through the memory-leak protection, then long tasks must still get a full pool
         mw = rnd.choice([1, 2, 2, 3])
